@@ -7,11 +7,11 @@ import (
 	"strconv"
 	"strings"
 	"time"
-	"unicode/utf8"
 
 	"github.com/alecthomas/participle/v2/lexer"
 
 	"verif/mc/internal/hx"
+	"verif/mc/internal/lexdrive"
 	"verif/mc/internal/lexfam"
 	m "verif/mc/internal/lexmodel"
 )
@@ -28,111 +28,11 @@ type tok struct {
 	pos lexer.Position
 }
 
-// runImpl drives the real lexer token by token under recover.
-type implRun struct {
-	toks     []lexer.Token // non-EOF tokens
-	eof      *lexer.Token
-	err      error
-	panicked string
-	extra    string // description of a C07 violation found while driving
-}
-
-func drive(def lexer.Definition, filename, in string, afterCalls int) implRun {
-	var r implRun
-	var lx lexer.Lexer
-	pan, msg := hx.Guard(func() {
-		var err error
-		if sd, ok := def.(lexer.StringDefinition); ok {
-			lx, err = sd.LexString(filename, in)
-		} else {
-			lx, err = def.Lex(filename, strings.NewReader(in))
-		}
-		if err != nil {
-			r.err = err
-		}
-	})
-	if pan {
-		r.panicked = "Lex: " + msg
-		return r
-	}
-	if r.err != nil {
-		return r
-	}
-	limit := len(in) + 2
-	for i := 0; ; i++ {
-		var t lexer.Token
-		var err error
-		pan, msg := hx.Guard(func() { t, err = lx.Next() })
-		if pan {
-			r.panicked = fmt.Sprintf("Next #%d: %s", i, msg)
-			return r
-		}
-		if err != nil {
-			r.err = err
-			// any number of further calls must return without panicking
-			for k := 0; k < afterCalls; k++ {
-				pan, msg := hx.Guard(func() { _, _ = lx.Next() })
-				if pan {
-					r.panicked = fmt.Sprintf("Next #%d after error: %s", k+1, msg)
-					return r
-				}
-			}
-			return r
-		}
-		if t.EOF() {
-			tt := t
-			r.eof = &tt
-			for k := 0; k < afterCalls; k++ {
-				var t2 lexer.Token
-				var err2 error
-				pan, msg := hx.Guard(func() { t2, err2 = lx.Next() })
-				if pan {
-					r.panicked = fmt.Sprintf("Next #%d after EOF: %s", k+1, msg)
-					return r
-				}
-				if err2 != nil || !t2.EOF() || t2.Pos != t.Pos {
-					r.extra = fmt.Sprintf("call %d after EOF returned (%#v, %v), expected EOF at %v", k+1, t2, err2, t.Pos)
-					return r
-				}
-			}
-			return r
-		}
-		if t.Value == "" {
-			r.extra = fmt.Sprintf("empty non-EOF token %#v", t)
-			return r
-		}
-		r.toks = append(r.toks, t)
-		if i > limit {
-			r.extra = fmt.Sprintf("more than len(input)=%d tokens without EOF", len(in))
-			return r
-		}
-	}
-}
-
-// posAt recomputes line/column of a byte offset from the text alone.
-func posAt(in string, off int) (line, col int) {
-	line = 1 + strings.Count(in[:off], "\n")
-	ls := strings.LastIndex(in[:off], "\n") + 1
-	col = 1 + utf8.RuneCountInString(in[ls:off])
-	return
-}
-
-func errOffset(err error) (int, bool) {
-	if le, ok := err.(*lexer.Error); ok {
-		return le.Pos.Offset, true
-	}
-	type posErr interface{ Position() lexer.Position }
-	if pe, ok := err.(posErr); ok {
-		return pe.Position().Offset, true
-	}
-	return 0, false
-}
-
 // checkLossless checks C04's invariants on a successful lex.
-func checkLossless(in, filename string, r implRun, noElided bool, skipsText bool) string {
+func checkLossless(in, filename string, r lexdrive.Run, noElided bool, skipsText bool) string {
 	prevEnd := 0
 	var sb strings.Builder
-	all := append(append([]lexer.Token{}, r.toks...), *r.eof)
+	all := append(append([]lexer.Token{}, r.Toks...), *r.EOF)
 	for i, t := range all {
 		off := t.Pos.Offset
 		if off < prevEnd || off > len(in) {
@@ -150,7 +50,7 @@ func checkLossless(in, filename string, r implRun, noElided bool, skipsText bool
 		} else if off != len(in) {
 			return fmt.Sprintf("EOF at offset %d, expected %d", off, len(in))
 		}
-		line, col := posAt(in, off)
+		line, col := lexdrive.PosAt(in, off)
 		if t.Pos.Line != line || t.Pos.Column != col {
 			return fmt.Sprintf("token %d %#v: line:col %d:%d, expected %d:%d for offset %d", i, t, t.Pos.Line, t.Pos.Column, line, col, off)
 		}
@@ -260,33 +160,33 @@ func (e *explorer) runDef(fam string, def m.Def, inputs []string) {
 	for _, in := range inputs {
 		w.Case(func() string { return key(fam, def, in) })
 		w.Count("evaluations", 1)
-		r := drive(d, "f.txt", in, 3)
+		r := lexdrive.Drive(d, "f.txt", in, 3)
 		switch e.prop {
 		case "C07":
-			if r.panicked != "" {
-				w.Violate(hx.Violation{Key: key(fam, def, in), Class: "panic", Detail: map[string]any{"panic": r.panicked}})
-			} else if r.extra != "" {
-				w.Violate(hx.Violation{Key: key(fam, def, in), Class: "progress", Detail: map[string]any{"what": r.extra}})
+			if r.Panicked != "" {
+				w.Violate(hx.Violation{Key: key(fam, def, in), Class: "panic", Detail: map[string]any{"panic": r.Panicked}})
+			} else if r.Extra != "" {
+				w.Violate(hx.Violation{Key: key(fam, def, in), Class: "progress", Detail: map[string]any{"what": r.Extra}})
 			}
 			var ty strings.Builder
-			for _, t := range r.toks {
+			for _, t := range r.Toks {
 				fmt.Fprintf(&ty, "%d,", t.Type)
 			}
-			w.DistinctS(fmt.Sprintf("%s/%v/%v", ty.String(), r.err != nil, r.eof != nil))
-			if len(in) >= 3 && r.err == nil {
-				w.Sample(map[string]any{"definition": def.String(), "input": in, "tokens": len(r.toks)})
+			w.DistinctS(fmt.Sprintf("%s/%v/%v", ty.String(), r.Err != nil, r.EOF != nil))
+			if len(in) >= 3 && r.Err == nil {
+				w.Sample(map[string]any{"definition": def.String(), "input": in, "tokens": len(r.Toks)})
 			}
 		case "C04":
-			if r.panicked != "" || r.err != nil || r.eof == nil || r.extra != "" {
+			if r.Panicked != "" || r.Err != nil || r.EOF == nil || r.Extra != "" {
 				w.Count("inputs_not_lexed_successfully", 1)
 				continue
 			}
 			if d := checkLossless(in, "f.txt", r, noElided, false); d != "" {
 				w.Violate(hx.Violation{Key: key(fam, def, in), Class: "position-or-text", Detail: map[string]any{"what": d}})
 			}
-			w.DistinctS(fmt.Sprint(r.toks))
+			w.DistinctS(fmt.Sprint(r.Toks))
 			if len(in) >= 3 && strings.Contains(in, "\n") {
-				w.Sample(map[string]any{"definition": def.String(), "input": in, "tokens": fmt.Sprintf("%#v", r.toks)})
+				w.Sample(map[string]any{"definition": def.String(), "input": in, "tokens": fmt.Sprintf("%#v", r.Toks)})
 			}
 		case "C03":
 			mr := model.Lex(in)
@@ -296,7 +196,7 @@ func (e *explorer) runDef(fam string, def m.Def, inputs []string) {
 				w.Count("inputs_with_stack_underflow (compared up to that point)", 1)
 			}
 			if d := compareC03(in, r, mr, names); d != "" {
-				w.Violate(hx.Violation{Key: key(fam, def, in), Class: d[:strings.IndexByte(d+":", ':')], Detail: map[string]any{"what": d, "model": fmt.Sprintf("%+v", mr), "impl_tokens": fmt.Sprintf("%#v", r.toks), "impl_err": fmt.Sprint(r.err), "impl_panic": r.panicked}})
+				w.Violate(hx.Violation{Key: key(fam, def, in), Class: d[:strings.IndexByte(d+":", ':')], Detail: map[string]any{"what": d, "model": fmt.Sprintf("%+v", mr), "impl_tokens": fmt.Sprintf("%#v", r.Toks), "impl_err": fmt.Sprint(r.Err), "impl_panic": r.Panicked}})
 			}
 			w.DistinctS(fmt.Sprintf("%v|%d", mr.Toks, mr.ErrOff))
 			if len(in) >= 3 && mr.ErrOff < 0 && len(mr.Toks) >= 2 {
@@ -304,13 +204,13 @@ func (e *explorer) runDef(fam string, def m.Def, inputs []string) {
 			}
 		case "C16":
 			for i, d2 := range rt {
-				r2 := drive(d2, "f.txt", in, 0)
+				r2 := lexdrive.Drive(d2, "f.txt", in, 0)
 				if d := sameRun(r, r2); d != "" {
 					w.Violate(hx.Violation{Key: key(fam, def, in) + fmt.Sprintf(" :: roundtrip#%d", i), Class: "tokens-differ-after-roundtrip", Detail: map[string]any{"what": d}})
 				}
 			}
-			w.DistinctS(fmt.Sprintf("%v|%v", r.toks, r.err))
-			if len(in) >= 2 && r.err == nil {
+			w.DistinctS(fmt.Sprintf("%v|%v", r.Toks, r.Err))
+			if len(in) >= 2 && r.Err == nil {
 				b, _ := json.Marshal(d)
 				w.Sample(map[string]any{"definition": def.String(), "json": string(b), "input": in})
 			}
@@ -318,71 +218,71 @@ func (e *explorer) runDef(fam string, def m.Def, inputs []string) {
 	}
 }
 
-func sameRun(a, b implRun) string {
-	if (a.panicked != "") != (b.panicked != "") {
-		return fmt.Sprintf("panic %q vs %q", a.panicked, b.panicked)
+func sameRun(a, b lexdrive.Run) string {
+	if (a.Panicked != "") != (b.Panicked != "") {
+		return fmt.Sprintf("panic %q vs %q", a.Panicked, b.Panicked)
 	}
-	if (a.err != nil) != (b.err != nil) {
-		return fmt.Sprintf("error %v vs %v", a.err, b.err)
+	if (a.Err != nil) != (b.Err != nil) {
+		return fmt.Sprintf("error %v vs %v", a.Err, b.Err)
 	}
-	if a.err != nil && a.err.Error() != b.err.Error() {
-		return fmt.Sprintf("error %v vs %v", a.err, b.err)
+	if a.Err != nil && a.Err.Error() != b.Err.Error() {
+		return fmt.Sprintf("error %v vs %v", a.Err, b.Err)
 	}
-	if len(a.toks) != len(b.toks) {
-		return fmt.Sprintf("%d tokens vs %d", len(a.toks), len(b.toks))
+	if len(a.Toks) != len(b.Toks) {
+		return fmt.Sprintf("%d tokens vs %d", len(a.Toks), len(b.Toks))
 	}
-	for i := range a.toks {
-		if a.toks[i] != b.toks[i] {
-			return fmt.Sprintf("token %d: %#v vs %#v", i, a.toks[i], b.toks[i])
+	for i := range a.Toks {
+		if a.Toks[i] != b.Toks[i] {
+			return fmt.Sprintf("token %d: %#v vs %#v", i, a.Toks[i], b.Toks[i])
 		}
 	}
 	return ""
 }
 
 // compareC03 compares the real lexer's run with the reference lexer's.
-func compareC03(in string, r implRun, mr m.Result, names map[lexer.TokenType]string) string {
+func compareC03(in string, r lexdrive.Run, mr m.Result, names map[lexer.TokenType]string) string {
 	// tokens before the point where the model stops (error / underflow / end)
 	n := len(mr.Toks)
 	if mr.Underflow {
 		// compare only the tokens the model predicted; anything (but C07 forbids a panic) may follow
-		if len(r.toks) < n && r.panicked == "" && r.err == nil {
-			return fmt.Sprintf("tokens: impl produced %d tokens, model predicts at least %d before the stack underflow", len(r.toks), n)
+		if len(r.Toks) < n && r.Panicked == "" && r.Err == nil {
+			return fmt.Sprintf("tokens: impl produced %d tokens, model predicts at least %d before the stack underflow", len(r.Toks), n)
 		}
-		for i := 0; i < n && i < len(r.toks); i++ {
-			if d := tokDiff(i, r.toks[i], mr.Toks[i], names); d != "" {
+		for i := 0; i < n && i < len(r.Toks); i++ {
+			if d := tokDiff(i, r.Toks[i], mr.Toks[i], names); d != "" {
 				return d
 			}
 		}
 		return ""
 	}
-	if r.panicked != "" {
-		return "panic: " + r.panicked
+	if r.Panicked != "" {
+		return "panic: " + r.Panicked
 	}
-	for i := 0; i < n && i < len(r.toks); i++ {
-		if d := tokDiff(i, r.toks[i], mr.Toks[i], names); d != "" {
+	for i := 0; i < n && i < len(r.Toks); i++ {
+		if d := tokDiff(i, r.Toks[i], mr.Toks[i], names); d != "" {
 			return d
 		}
 	}
 	if mr.ErrOff >= 0 {
-		if r.err == nil {
+		if r.Err == nil {
 			return fmt.Sprintf("verdict: impl lexed successfully, model stops with an error at offset %d", mr.ErrOff)
 		}
-		if len(r.toks) != n {
-			return fmt.Sprintf("tokens: impl produced %d tokens before its error, model %d", len(r.toks), n)
+		if len(r.Toks) != n {
+			return fmt.Sprintf("tokens: impl produced %d tokens before its error, model %d", len(r.Toks), n)
 		}
-		if off, ok := errOffset(r.err); !ok || off != mr.ErrOff {
-			return fmt.Sprintf("errpos: impl error %v (offset %d), model error at offset %d", r.err, off, mr.ErrOff)
+		if off, ok := lexdrive.ErrOffset(r.Err); !ok || off != mr.ErrOff {
+			return fmt.Sprintf("errpos: impl error %v (offset %d), model error at offset %d", r.Err, off, mr.ErrOff)
 		}
 		return ""
 	}
-	if r.err != nil {
-		return fmt.Sprintf("verdict: impl error %v, model lexes successfully", r.err)
+	if r.Err != nil {
+		return fmt.Sprintf("verdict: impl error %v, model lexes successfully", r.Err)
 	}
-	if len(r.toks) != n {
-		return fmt.Sprintf("tokens: impl produced %d tokens, model %d", len(r.toks), n)
+	if len(r.Toks) != n {
+		return fmt.Sprintf("tokens: impl produced %d tokens, model %d", len(r.Toks), n)
 	}
-	if r.extra != "" {
-		return "eof: " + r.extra
+	if r.Extra != "" {
+		return "eof: " + r.Extra
 	}
 	return ""
 }
@@ -460,15 +360,15 @@ func textScannerJob(w *hx.Worker, quick bool) {
 	for _, in := range lexfam.Inputs(alpha, ml) {
 		w.Count("evaluations", 1)
 		w.Count("text_scanner_inputs", 1)
-		r := drive(lexer.TextScannerLexer, "f.txt", in, 2)
-		if r.panicked != "" || r.err != nil || r.eof == nil || r.extra != "" {
+		r := lexdrive.Drive(lexer.TextScannerLexer, "f.txt", in, 2)
+		if r.Panicked != "" || r.Err != nil || r.EOF == nil || r.Extra != "" {
 			w.Count("inputs_not_lexed_successfully", 1)
 			continue
 		}
 		if d := checkLossless(in, "f.txt", r, false, true); d != "" {
 			w.Violate(hx.Violation{Key: fmt.Sprintf("text/scanner :: in=%q", in), Class: "position-or-text", Detail: map[string]any{"what": d}})
 		}
-		w.DistinctS(fmt.Sprint(r.toks))
+		w.DistinctS(fmt.Sprint(r.Toks))
 	}
 }
 
